@@ -311,9 +311,20 @@ func (u *UnitsDefinition) handleParseMultiplier(
 				Message: fmt.Sprintf("Failed to parse number as int: %s", result),
 			}
 		}
-		floatNumber += float64(i * multiplier)
+		if multiplier > 0 && i > math.MaxInt64/multiplier {
+			return intNumber, floatNumber, isFloat, UnitParseError{
+				Message: fmt.Sprintf("Number %s with multiplier %d does not fit in 64 bits", result, multiplier),
+			}
+		}
+		product := i * multiplier
+		floatNumber += float64(product)
 		if !isFloat {
-			intNumber += i * multiplier
+			if product > 0 && intNumber > math.MaxInt64-product {
+				return intNumber, floatNumber, isFloat, UnitParseError{
+					Message: fmt.Sprintf("Sum of units does not fit in 64 bits at %s", result),
+				}
+			}
+			intNumber += product
 		}
 	}
 	return intNumber, floatNumber, isFloat, nil
